@@ -1,6 +1,8 @@
 import RModel.Base.Bytes
 import RModel.Model.Panics
-/- driver operations for C16: the model's prediction `panic` | `nopanic` | `any` (no claim) per request -/
+/- driver operations for C16: the model's prediction per request.
+   `panic` / `nopanic` = the model of the code AS THE SOURCE HAS IT NOW (`…Cur`, selected by Gen.PanicGuards)
+   says so for this input; `any` = no claim.  Reverting a fix flips the flag, hence these answers. -/
 open B Panics
 
 namespace OpsPanic
@@ -8,6 +10,18 @@ namespace OpsPanic
 def verdict (panics : Bool) : String := if panics then "panic" else "nopanic"
 
 def isAscii (s : Bytes) : Bool := s.all (fun c => c.toNat < 128)
+
+/-- have all guards of a group of sites been found in the source? -/
+def coercionRepaired : Bool :=
+  Gen.PanicGuards.ciEmptyAndLengthGuard && Gen.PanicGuards.ciSlicesChecked && Gen.PanicGuards.coercionPartChecked
+
+def editsOf : List String → Option (List Edits.Edit)
+  | [] => some []
+  | b :: a :: s :: e :: rest =>
+    match ofHex b, ofHex a, s.toNat?, e.toNat?, editsOf rest with
+    | some b, some a, some s, some e, some r => some ({ before := b, after := a, start := s, stop := e } :: r)
+    | _, _, _, _, _ => none
+  | _ => none
 
 def dispatch : List String → Option String
   | ["panic_boundary", h, s, e] =>
@@ -19,6 +33,12 @@ def dispatch : List String → Option String
     match ofHex h with
     | some _ => some "nopanic"
     | none => some "bad-req"
+  | "panic_tokens_acr" :: h :: acrs =>
+    -- `findLongestMatch_total`: with the ASCII guard no custom acronym can split a character
+    match ofHex h, acrs.mapM ofHex with
+    | some _, some as =>
+      if Gen.PanicGuards.acronymAsciiGuard || as.all isAscii then some "nopanic" else some "any"
+    | _, _ => some "bad-req"
   | ["panic_lock", h, now] =>
     match ofHex h, now.toNat? with
     | some c, some now => some (verdict (lockPanics c now))
@@ -27,9 +47,28 @@ def dispatch : List String → Option String
     match ofHex c, ofHex o, ofHex n with
     | some c, some o, some _ =>
       if o.isEmpty then some "bad-req"
-      -- `replaceCaseInsensitive_ascii_total`: ASCII container, non-empty pattern: safe; otherwise no claim
-      else if isAscii c then some "nopanic" else some "any"
+      -- `replaceCaseInsensitive_total` / `patternPart_total`: any text; before the fix only ASCII was safe
+      else if coercionRepaired || isAscii c then some "nopanic" else some "any"
     | _, _, _ => some "bad-req"
+  | "panic_edits" :: h :: rest =>
+    match ofHex h, editsOf rest with
+    | some orig, some es => some (verdict (applyEditsCur orig es == .error .panic))
+    | _, _ => some "bad-req"
+  | ["panic_vmap", s, r] =>
+    -- `variantMap_has_no_empty_key`
+    match ofHex s, ofHex r with
+    | some _, some _ => some (if Gen.PanicGuards.emptyVariantSkipped then "no-empty-key" else "any")
+    | _, _ => some "bad-req"
+  | ["panic_upper", h] =>
+    -- `upperRun_total`
+    match ofHex h with
+    | some t => some (if Gen.PanicGuards.upperRunCountsChars || isAscii t then "nopanic" else "any")
+    | none => some "bad-req"
+  | "panic_find" :: h :: vars =>
+    -- `matcher_indices_in_range`: no empty variant, no panic
+    match ofHex h, vars.mapM ofHex with
+    | some _, some vs => some (if vs.all (fun v => !v.isEmpty) then "nopanic" else "any")
+    | _, _ => some "bad-req"
   | _ => none
 
 end OpsPanic
